@@ -100,6 +100,14 @@ pub fn record_cut(out: &mut Out, tier: &str, seed: u64) {
     }
     // deterministic large shapes: fields of the maximal size, payloads on both sides of 64 KiB and of 1 MiB
     // (a reader that switches strategy by size), cut at sampled positions incl. inside the payload
+    // remaining length / property length on and around the width boundaries (e.g. a remaining length of exactly 128:
+    // first length byte 0x80), every cut
+    for p in crate::wire::boundary_packets_v3("core") {
+        cut_events::<V3>(out, &mut rng, &p, false);
+    }
+    for p in crate::wire::boundary_packets_v5("core") {
+        cut_events::<V5>(out, &mut rng, &p, false);
+    }
     for p in crate::wire::max_field_packets_v3() {
         cut_events::<V3>(out, &mut rng, &p, false);
     }
@@ -547,6 +555,65 @@ fn big_dec_events<F: Fam>(out: &mut Out, tier: &str) {
 pub fn record_dec3(out: &mut Out, tier: &str, seed: u64) {
     big_dec_events::<V3>(out, tier);
     big_dec_events::<V5>(out, tier);
+    // every valid first byte x remaining length 0..4 x every body over {00, 01, 02, 80, FF}: all the tiny frames, with
+    // any number of faults at once (e.g. 82 02 00 00: no filter AND packet identifier 0)
+    {
+        let alpha = [0x00u8, 0x01, 0x02, 0x80, 0xFF];
+        let ctls = [0x10u8, 0x20, 0x30, 0x32, 0x3D, 0x40, 0x50, 0x62, 0x70, 0x82, 0x90, 0xA2, 0xB0, 0xC0, 0xD0, 0xE0, 0xF0];
+        for ctl in ctls {
+            for rl in 0..=4usize {
+                let mut idx = vec![0usize; rl];
+                loop {
+                    let mut f = vec![ctl, rl as u8];
+                    f.extend(idx.iter().map(|i| alpha[*i]));
+                    dec3_event::<V3>(out, &f);
+                    dec3_event::<V5>(out, &f);
+                    let mut k = 0;
+                    while k < rl {
+                        idx[k] += 1;
+                        if idx[k] < alpha.len() {
+                            break;
+                        }
+                        idx[k] = 0;
+                        k += 1;
+                    }
+                    if k == rl {
+                        break;
+                    }
+                }
+            }
+        }
+    }
+    // a malformed frame declared shorter at EVERY cut (a runt CONNECT with a bad level, ...): small packets only
+    {
+        fn runts<F: GenFam>(out: &mut Out, rng: &mut Rng) {
+            let mut bb = Budget { big: 0, huge: 0 };
+            for t in F::types() {
+                for _ in 0..2 {
+                    let p = F::gen(rng, &mut bb, t);
+                    let Some(e) = enc::<F>(&p).1 else { continue };
+                    if e.len() > 48 {
+                        continue;
+                    }
+                    let Some(fr) = crate::tokens::tokenize(F::NAME, &e) else { continue };
+                    for m in crate::tokens::catalogue(&fr, rng) {
+                        let b = &m.bytes;
+                        if b.len() < 3 || b[1] & 0x80 != 0 || b[1] as usize != b.len() - 2 {
+                            continue;
+                        }
+                        for k in 1..b.len() - 2 {
+                            let mut v = vec![b[0], k as u8];
+                            v.extend_from_slice(&b[2..2 + k]);
+                            dec3_event::<F>(out, &v);
+                        }
+                    }
+                }
+            }
+        }
+        let mut rng0 = Rng::new(seed ^ 0xD3C3);
+        runts::<V3>(out, &mut rng0);
+        runts::<V5>(out, &mut rng0);
+    }
     // valid frames with extreme values and the large-class frames, spelled by the harness (not by the library's encoder)
     crate::accept::large_class_for("v3", &mut |_m, b, _bad| dec3_event::<V3>(out, b));
     crate::accept::large_class_for("v5", &mut |_m, b, _bad| dec3_event::<V5>(out, b));
@@ -1278,6 +1345,16 @@ fn conv_events(out: &mut Out) {
         out.ev(json!({"ev": "Conv", "dir": "io", "kind": io_kind_name(k), "as_v3": err3_to_json(&e),
                       "as_v5": err5_to_json(&e5), "back": io_kind_name(back.kind()), "eof3": e.is_eof(), "eof5": e5.is_eof()}));
     }
+    // an io::Error that wraps another io::Error (a layered transport): the kind is the OUTER one's
+    for (outer, inner) in [(std::io::ErrorKind::Other, std::io::ErrorKind::ConnectionReset), (std::io::ErrorKind::Other, std::io::ErrorKind::UnexpectedEof),
+                           (std::io::ErrorKind::BrokenPipe, std::io::ErrorKind::TimedOut), (std::io::ErrorKind::UnexpectedEof, std::io::ErrorKind::Other)] {
+        let mk = || std::io::Error::new(outer, std::io::Error::from(inner));
+        let e: E = mk().into();
+        let back: std::io::Error = e.clone().into();
+        let e5: mqtt_proto::v5::ErrorV5 = mk().into();
+        out.ev(json!({"ev": "Conv", "dir": "io", "kind": io_kind_name(outer), "as_v3": err3_to_json(&e),
+                      "as_v5": err5_to_json(&e5), "back": io_kind_name(back.kind()), "eof3": e.is_eof(), "eof5": e5.is_eof()}));
+    }
     let protos: Vec<E> = vec![
         E::InvalidRemainingLength, E::EmptySubscription, E::ZeroPid, E::InvalidQos(3), E::InvalidConnectFlags(1),
         E::InvalidConnackFlags(2), E::InvalidConnectReturnCode(9), E::InvalidProtocol("x".into(), 1),
@@ -1299,11 +1376,72 @@ fn conv_events(out: &mut Out) {
     }
 }
 
+/// faults in a packet of 5 MiB (an encoder / decoder that treats large packets in slices): positions around the
+/// slice boundaries; only kinds, lengths and prefix-ness are recorded
+fn big_fault_events<F: Fam>(out: &mut Out, p: &F::Packet) {
+    let Some(full) = enc::<F>(p).1 else { return };
+    let total = full.len();
+    let arc = Arc::new(full);
+    let positions = [0usize, 1, (1 << 20) + 3, (4 << 20) - 1, 4 << 20, (4 << 20) + 1, total - 1];
+    let mut rows = Vec::new();
+    for pos in positions {
+        for (label, w, r) in [("Zero", WStep::Zero, RStep::Eof), ("ConnectionReset", WStep::Err(std::io::ErrorKind::ConnectionReset), RStep::Err(std::io::ErrorKind::ConnectionReset)),
+                              ("TimedOut", WStep::Err(std::io::ErrorKind::TimedOut), RStep::Err(std::io::ErrorKind::TimedOut))] {
+            // async encoder
+            let res = guarded(|| {
+                let mut wr = ScriptedWriter::new(vec![], WStep::Accept((1 << 20) + 1));
+                wr.fail_at = Some((pos, w));
+                let (o, _) = drive(F::encode_async(p, &mut wr), MAX_POLLS);
+                (o, wr.sink)
+            });
+            let row = match res {
+                Err(_) => json!([pos, label, "enc", "panic", "", "", 0, false]),
+                Ok((None, s)) => json!([pos, label, "enc", "spin", "", "", s.len(), false]),
+                Ok((Some(Ok(())), s)) => json!([pos, label, "enc", "ok", "", "", s.len(), s[..] == arc[..s.len().min(total)]]),
+                Ok((Some(Err(e)), s)) => {
+                    let j = F::err_json(&e);
+                    json!([pos, label, "enc", j["k"], j["e"], j["a"].get(0).cloned().unwrap_or(J::from("")), s.len(),
+                           s.len() <= total && s[..] == arc[..s.len()]])
+                }
+            };
+            rows.push(row);
+            // async and poll decoders: the same fault on the read side
+            for front in ["async", "poll"] {
+                let res = guarded(|| {
+                    let mut rd = ScriptedReader::new(arc.clone(), vec![], RStep::Data((1 << 20) + 1));
+                    rd.fault_at = Some((pos, r, 0));
+                    rd.logging = false;
+                    if front == "async" {
+                        drive(F::decode_async(&mut rd), MAX_POLLS).0.map(|x| x.map(|_| ()))
+                    } else {
+                        let mut st: GenericPollPacketState<F::Header> = Default::default();
+                        drive(GenericPollPacket::new(&mut st, &mut rd), MAX_POLLS).0.map(|x| x.map(|_| ()))
+                    }
+                });
+                rows.push(match res {
+                    Err(_) => json!([pos, label, front, "panic", "", "", 0, true]),
+                    Ok(None) => json!([pos, label, front, "spin", "", "", 0, true]),
+                    Ok(Some(Ok(()))) => json!([pos, label, front, "ok", "", "", 0, true]),
+                    Ok(Some(Err(e))) => {
+                        let j = F::err_json(&e);
+                        json!([pos, label, front, j["k"], j["e"], j["a"].get(0).cloned().unwrap_or(J::from("")), 0, j["eof"].as_bool().unwrap_or(false)])
+                    }
+                });
+            }
+        }
+    }
+    out.ev(json!({"ev": "BigFault", "fam": F::NAME, "total": total, "rows": rows}));
+}
+
 pub fn record_fault(out: &mut Out, tier: &str, seed: u64) {
     let n = if tier == "thorough" { 3000 } else { 120 };
     let mut rng = Rng::new(seed ^ 0xC14);
     let mut b = Budget { big: if tier == "thorough" { 200 } else { 10 }, huge: 0 };
     conv_events(out);
+    if !cfg!(debug_assertions) {
+        big_fault_events::<V3>(out, &crate::wire::publish_v3(3, 5 << 20, false));
+        big_fault_events::<V5>(out, &crate::wire::publish_v5(3, 5 << 20));
+    }
     let t3 = V3::types();
     for i in 0..n {
         let p = V3::gen(&mut rng, &mut b, t3[i % t3.len()]);
